@@ -70,8 +70,8 @@ def hashWords (msg : Bytes) : Array UInt32 :=
 /-- Lower-case hex of the 32-byte digest, as bytes. -/
 def hex (msg : Bytes) : Bytes :=
   let hx (n : UInt32) : UInt8 := let v := n.toUInt8 &&& 15; if v < 10 then 48 + v else 87 + v
-  (hashWords msg).toList.flatMap fun w =>
-    [hx (w >>> 28), hx (w >>> 24), hx (w >>> 20), hx (w >>> 16), hx (w >>> 12), hx (w >>> 8), hx (w >>> 4), hx w]
+  (hashWords msg).toList.flatMap fun (w : UInt32) =>
+    ([28, 24, 20, 16, 12, 8, 4, 0] : List UInt32).map fun (s : UInt32) => hx (w >>> s)
 
 /-- `digest.FromBytes`: `"sha256:" ++ hex`. -/
 def digest (msg : Bytes) : Bytes := [115, 104, 97, 50, 53, 54, 58] ++ hex msg
